@@ -51,6 +51,8 @@ func runSolver(ctx context.Context, sc solverCfg, timeoutS, seed int, file strin
 	first := strings.TrimSpace(strings.SplitN(strings.TrimSpace(text), "\n", 2)[0])
 	r := "error"
 	switch {
+	case strings.Contains(text, "(error"):
+		r = "error"
 	case first == "unsat":
 		r = "unsat"
 	case first == "sat":
